@@ -524,3 +524,89 @@ func bitopConst(op Op, x, c *Term) (*Term, bool) {
 	}
 	return nil, false
 }
+
+// Theory-mode contracts of neo-go's bigint codec (little-endian two's complement, minimal
+// length). The contract itself is what the C18 word-mode harness verifies against the real code.
+func registerBigintCodecIntrinsics(in map[string]Intrinsic) {
+	pkg := "github.com/nspcc-dev/neo-go/pkg/encoding/bigint."
+	in[pkg+"FromBytes"] = func(w *Worker, g *G, fr *Frame, fn *ssa.Function, a []Value) (Value, ctl) {
+		if !w.e.theoryBig {
+			return w.fallThrough(g, fr, fn, a)
+		}
+		s := a[0].(SliceV)
+		if s.O == nil {
+			w.raise(g, IfaceV{T: types.Typ[types.String], V: mkString("nil slice provided to `FromBytes`")})
+			return nil, ctlStay
+		}
+		bs := w.sliceBytes(s)
+		if len(bs) == 0 {
+			return w.newBig(IntI(0)), ctlNext
+		}
+		t := bs[len(bs)-1]
+		for i := len(bs) - 2; i >= 0; i-- {
+			t = Concat(t, bs[i])
+		}
+		return w.newBig(BV2IntSigned(t)), ctlNext
+	}
+	toBytes := func(w *Worker, g *G, n *Term, data SliceV, haveData bool) (Value, bool) {
+		// n == 0 -> empty slice
+		conds := []*Term{Eq(n, IntI(0))}
+		const maxK = 66
+		for k := 1; k <= maxK; k++ {
+			lim := IntConst(pow2(8*k - 1))
+			in := And(ILe(INeg(lim), n), ILt(n, lim))
+			if k > 1 {
+				pl := IntConst(pow2(8*(k-1) - 1))
+				in = And(in, Not(And(ILe(INeg(pl), n), ILt(n, pl))))
+			} else {
+				in = And(in, Not(Eq(n, IntI(0))))
+			}
+			conds = append(conds, in)
+		}
+		lim := IntConst(pow2(8*maxK - 1))
+		conds = append(conds, Not(And(ILe(INeg(lim), n), ILt(n, lim))))
+		k := w.decideN(conds, "bigint.ToBytes length")
+		if k == len(conds)-1 {
+			panic(pathEnd{"CUT", "bigint.ToBytes of a value beyond 66 bytes"})
+		}
+		if k == 0 {
+			if haveData && data.O != nil {
+				return SliceV{O: data.O, Path: data.Path, Off: data.Off, Len: 0, Cap: data.Cap}, true
+			}
+			return w.newSlice(types.Typ[types.Uint8], nil), true
+		}
+		bv := Int2BV(n, 8*k)
+		out := make([]Value, k)
+		for i := 0; i < k; i++ {
+			out[i] = Extract(bv, 8*i+7, 8*i)
+		}
+		if haveData && data.O != nil && data.Cap >= k {
+			res := SliceV{O: data.O, Path: data.Path, Off: data.Off, Len: k, Cap: data.Cap}
+			w.writeSlice(res, 0, out)
+			return res, true
+		}
+		return w.newSlice(types.Typ[types.Uint8], out), true
+	}
+	in[pkg+"ToBytes"] = func(w *Worker, g *G, fr *Frame, fn *ssa.Function, a []Value) (Value, ctl) {
+		if !w.e.theoryBig {
+			return w.fallThrough(g, fr, fn, a)
+		}
+		n := w.bigOf(g, a[0])
+		if n == nil {
+			return nil, ctlStay
+		}
+		v, _ := toBytes(w, g, n, SliceV{}, false)
+		return v, ctlNext
+	}
+	in[pkg+"ToPreallocatedBytes"] = func(w *Worker, g *G, fr *Frame, fn *ssa.Function, a []Value) (Value, ctl) {
+		if !w.e.theoryBig {
+			return w.fallThrough(g, fr, fn, a)
+		}
+		n := w.bigOf(g, a[0])
+		if n == nil {
+			return nil, ctlStay
+		}
+		v, _ := toBytes(w, g, n, a[1].(SliceV), true)
+		return v, ctlNext
+	}
+}
